@@ -775,3 +775,46 @@ def cas_on(fn, field):
 
 def const_ret(val):
     return const_int(val) if isinstance(val, dict) else None
+
+
+def guard_interval(fn, val, target, width=32):
+    """(lo, hi) signed bounds on `val` established by comparisons with constants on edges that
+    dominate `target` (None = unbounded)"""
+    lo, hi = None, None
+
+    def tighten(pred, c):
+        nonlocal lo, hi
+        if pred == 'slt':
+            hi = c - 1 if hi is None else min(hi, c - 1)
+        elif pred == 'sle':
+            hi = c if hi is None else min(hi, c)
+        elif pred == 'sgt':
+            lo = c + 1 if lo is None else max(lo, c + 1)
+        elif pred == 'sge':
+            lo = c if lo is None else max(lo, c)
+        elif pred == 'eq':
+            lo = c if lo is None else max(lo, c)
+            hi = c if hi is None else min(hi, c)
+        elif pred == 'ult':
+            # unsigned x < c (c >= 0) implies 0 <= x < c as signed
+            if c >= 0:
+                lo = 0 if lo is None else max(lo, 0)
+                hi = c - 1 if hi is None else min(hi, c - 1)
+        elif pred == 'ule':
+            if c >= 0:
+                lo = 0 if lo is None else max(lo, 0)
+                hi = c if hi is None else min(hi, c)
+    NEG = {'slt': 'sge', 'sge': 'slt', 'sgt': 'sle', 'sle': 'sgt', 'ult': 'uge', 'uge': 'ult', 'ugt': 'ule', 'ule': 'ugt',
+           'eq': 'ne', 'ne': 'eq'}
+    want = fn.sources(val)
+    for ic in fn.order:
+        if ic.op != 'icmp':
+            continue
+        c = const_int(ic.ops[1])
+        if c is None or fn.sources(ic.ops[0]) != want:
+            continue
+        if fn.on_edge(ic.id, True, target):
+            tighten(ic.pred, c)
+        elif fn.on_edge(ic.id, False, target):
+            tighten(NEG.get(ic.pred, ''), c)
+    return lo, hi
